@@ -86,3 +86,52 @@ void h_misc(void)
 	}
 	V_CANARY("misc");
 }
+
+/* auxiliary inputs (IV, header, value) lying inside the output region */
+void h_aux(void)
+{
+	V_IN_ARR(octet, ar0, 96); V_IN_ARR(octet, key, 32); V_IN(unsigned char, k);
+	octet AR[96], E[64], S[64], aux[16];
+	err_t e1, e2;
+	V_TWEAK(k, k %= 49);
+	V_ASSUME(k <= 48);
+	/* beltSDEEncr / beltSDEDecr: iv inside dest (dest == src, 64 octets) */
+	o_copy(AR, ar0, 96); o_copy(S, ar0, 64); o_copy(aux, ar0 + k, 16);
+	e1 = beltSDEEncr(AR, S, 64, key, 32, AR + k);        /* dest and src disjoint, iv inside dest */
+	e2 = beltSDEEncr(E, S, 64, key, 32, aux);
+	V_ASSERT(e1 == e2 && (e1 != ERR_OK || o_eq(AR, E, 64)), "beltSDEEncr with iv inside dest == disjoint-buffer result");
+	o_copy(AR, ar0, 96);
+	e1 = beltSDEDecr(AR, S, 64, key, 32, AR + k);
+	e2 = beltSDEDecr(E, S, 64, key, 32, aux);
+	V_ASSERT(e1 == e2 && (e1 != ERR_OK || o_eq(AR, E, 64)), "beltSDEDecr with iv inside dest == disjoint-buffer result");
+	/* beltKWPUnwrap: header inside dest; token = wrap of 48 octets with that header, so both runs must succeed */
+	{
+		octet tok[64], T2[64], D1[96], D2[48];
+		V_TWEAK(k, k %= 33);
+		if (k <= 32)
+		{
+			o_copy(aux, ar0 + 64, 16);
+			if (beltKWPWrap(tok, ar0, 48, aux, key, 32) == ERR_OK)
+			{
+				o_copy(D1, ar0, 96); o_copy(D1 + k, aux, 16); o_copy(T2, tok, 64);
+				e1 = beltKWPUnwrap(D1, tok, 64, D1 + k, key, 32);
+				e2 = beltKWPUnwrap(D2, T2, 64, aux, key, 32);
+				V_ASSERT(e2 == ERR_OK, "beltKWPUnwrap inverts beltKWPWrap");
+				V_ASSERT(e1 == e2 && o_eq(D1, D2, 48), "beltKWPUnwrap with header inside dest == disjoint-buffer result");
+			}
+		}
+	}
+	/* derTUINTEnc: val inside der (documented: follows derEnc, buffers may overlap) */
+	{
+		V_IN_ARR(octet, v0, 10); V_IN(unsigned char, off);
+		octet D1[24], D2[24];
+		size_t n1, n2;
+		V_TWEAK(off, off %= 13);
+		V_ASSUME(off <= 12);
+		o_copy(D1 + off, v0, 10);
+		n1 = derTUINTEnc(D1, 0x02, D1 + off, 10);
+		n2 = derTUINTEnc(D2, 0x02, v0, 10);
+		V_ASSERT(n1 == n2 && n1 <= 13 && o_eq(D1, D2, n1), "derTUINTEnc with val inside der == disjoint-buffer result");
+	}
+	V_CANARY("aux");
+}
